@@ -300,6 +300,13 @@ class Abs:
             return a
         if b[0] == 'node|none' and a[0] in ('node', 'none'):
             return b
+        if {a[0], b[0]} == {'text', 'none'}:
+            t = a if a[0] == 'text' else b
+            return ('text?', t)
+        if a[0] == 'text?' and b[0] in ('none', 'text'):
+            return a if b[0] == 'none' else ('text?', self.join(a[1], b))
+        if b[0] == 'text?' and a[0] in ('none', 'text'):
+            return b if a[0] == 'none' else ('text?', self.join(b[1], a))
         if a[0] == 'text' and b[0] == 'text':
             order = ['BITS', 'FRAG', 'TOK', 'VERB', 'INNER', 'ESC', 'RAW']
             ca, cb = a[1], b[1]
@@ -812,6 +819,7 @@ def rule_r1_r2(chk, prog, ab):
             continue
         substs, fresh = c.args
         pairs = []
+        hctx = []  # keys that live in a helper function
         if isinstance(substs, ast.Dict):
             pairs = list(zip(substs.keys, substs.values))
         elif isinstance(substs, ast.DictComp):
@@ -828,6 +836,33 @@ def rule_r1_r2(chk, prog, ab):
                         st.func.attr == 'update' and unparse(
                             st.func.value) == substs.id:
                     pairs.append((None, None))
+            if not pairs:
+                # substs = helper(...): the helper builds and returns a dict
+                ds = [st.value for st in walk_no_nested(f)
+                      if isinstance(st, ast.Assign) and unparse(
+                          st.targets[0]) == substs.id]
+                if len(ds) == 1 and isinstance(ds[0], ast.Call) and \
+                        isinstance(ds[0].func, ast.Name) and \
+                        ds[0].func.id in m.funcs:
+                    h = m.funcs[ds[0].func.id]
+                    hp = params_of(h)
+                    henv = dict(zip(hp, ds[0].args))
+                    rets = [r.value for r in walk_no_nested(h)
+                            if isinstance(r, ast.Return)
+                            and isinstance(r.value, ast.Name)]
+                    for st in walk_no_nested(h):
+                        if rets and isinstance(st, ast.Assign) and \
+                                isinstance(st.targets[0], ast.Subscript) \
+                                and unparse(st.targets[0].value) == \
+                                rets[0].id:
+                            k_ = st.targets[0].slice
+                            v_ = st.value
+                            # a value that is a parameter of the helper is
+                            # the caller's argument
+                            if isinstance(v_, ast.Name) and v_.id in henv:
+                                v_ = henv[v_.id]
+                            pairs.append((k_, v_))
+                            hctx.append((k_, h))
             if not pairs:
                 raise AnalysisError(
                     f'{m.loc(c)}: cannot find how the map "{substs.id}" is '
@@ -870,8 +905,12 @@ def rule_r1_r2(chk, prog, ab):
             # keys
             kk = unparse(k)
             okk = False
+            kf = f
+            for (hk, hf) in hctx:
+                if hk is k:
+                    kf = hf
             if isinstance(k, ast.Attribute) and k.attr == 'id':
-                kb = ab.kind(k.value, m, f)
+                kb = ab.kind(k.value, m, kf)
                 okk = kb[0] == 'node'
             elif isinstance(k, ast.Name):
                 kb = ab.kind(k, m, f)
@@ -941,6 +980,14 @@ def rule_r3(chk, prog, ab):
                     n += 1
                     ok = False
                     msg = ''
+                    if k[0] == 'text?':
+                        # a helper result that may be None: needs a None test
+                        xt = unparse(x)
+                        if (f'{xt} is None', False) in facts_at(f, c):
+                            k = k[1]
+                        else:
+                            k = ('bad', f'"{xt}" may be None when it '
+                                 'becomes a leaf')
                     if k[0] == 'int':
                         ok = True
                     elif k[0] == 'text':
@@ -1184,10 +1231,12 @@ def _assert_implied(test, facts, f, m, ab):
                 continue
             if isinstance(e, ast.Compare) and len(e.ops) == 1 and isinstance(
                     e.ops[0], ast.In) and owner and unparse(
-                        e.left) == f'{owner}.get_ident()' and isinstance(
-                            e.comparators[0], (ast.List, ast.Tuple)):
-                these = {c.value for c in e.comparators[0].elts
-                         if isinstance(c, ast.Constant)}
+                        e.left) == f'{owner}.get_ident()':
+                try:
+                    from ..astutil import module_const
+                    these = set(module_const(m, e.comparators[0]))
+                except (ValueError, TypeError):
+                    continue
                 allowed = these if allowed is None else (allowed & these)
         disj = None
         for (t, pol) in facts:
